@@ -1,4 +1,15 @@
-"""C12 - cross-thread hand-off containers (TransactionalBuffer, TransactionalValue) lose, duplicate and race on nothing."""
+"""C12 - cross-thread hand-off containers (TransactionalBuffer, TransactionalValue) lose, duplicate and race on nothing.
+
+Families of executions (all validated by spec/containers/HandOffTrace.tla against the HandOff contract):
+  seq         paths of TLC's state graph of the bounded contract, single-threaded
+  burst-seq   TLC-emitted histories with bursts of 0..65537 (thorough ..131073) calls between two consumer calls (HandOffBurstGen)
+  hist        TLC-emitted histories with a throwing payload copy, two interleaved instances, tv = other (HandOffHistGen;
+              tv = other only when the probe build that instantiates operator=(const TransactionalValue&) succeeds)
+  conc        seeded concurrent scenarios, start states (pre-filled buffer of 1 / 2^k elements, pending or installed value),
+              yield or busy-wait start barrier; the same under ThreadSanitizer
+  burst-conc  a whole burst between two consumer polls (consumer held by the driver)
+Payload types: int / 8-byte pair, std::string (small, heap, NUL and >= 0x80 bytes, long), 24-byte POD, 64-byte alignas(64) POD (value),
+unique_ptr (buffer), a type whose copy throws.  Mutations the check was tried against: selftest/mutations/C12/*.diff."""
 import json, os, random, copy, re
 from concurrent.futures import ThreadPoolExecutor
 from .. import tla, build, adtcheck, handoff, trace, funcheck
@@ -110,12 +121,16 @@ def seq_scenarios(chk, quick):
                 continue
             seen.add(key)
             # quick tier: both payload types alternate over the sequences; thorough: every sequence with both
-            for payload in (("int", "str") if not quick else (("int",) if len(seen) % 2 else ("str",))):
+            pls = handoff.PAYLOADS[obj]
+            for payload in (pls if not quick else (pls[len(seen) % len(pls)],)):
                 out.append({"kind": "seq", "obj": obj, "payload": payload, "h": steps})
     return out, info
 
 
-BURST_LENS = [1, 2, 127, 128, 255, 256, 257, 511, 512, 513, 1024, 65535, 65536, 65537]
+BURST_LENS = [0, 1, 2, 127, 128, 255, 256, 257, 511, 512, 513, 1023, 1024, 1025, 4095, 4096, 4097, 65535, 65536, 65537]
+
+
+BOUNDARY_LENS = [0, 255, 256, 257, 4096, 65535, 65536, 65537]
 
 
 def burst_seq_scenarios(chk, quick):
@@ -138,9 +153,41 @@ def burst_seq_scenarios(chk, quick):
                 steps.append({"a": a, "arg": {"ref": st["ref"]}})
             else:
                 steps.append({"a": a, "arg": {}})
-        for payload in ("int", "str"):
+        for payload in handoff.PAYLOADS[c["obj"]]:
+            # quick tier: every length class with the two basic payload types, the boundary classes with every payload type
+            if quick and payload not in ("int", "str") and c["cls"] not in BOUNDARY_LENS:
+                continue
             out.append({"kind": "seq", "obj": c["obj"], "payload": payload, "h": steps, "burst": c["cls"], "shape": c["shape"]})
     return out
+
+
+def hist_scenarios(chk, have_copy_assign):
+    """Histories about the state left behind by earlier calls (a call whose payload copy threw), about several
+    instances used by one thread, and about tv = other: emitted by TLC (HandOffHistGen.tla).
+    Returns (throw, multi, from) scenario lists."""
+    cases = funcheck.gen_cases(chk, SPEC, "HandOffHistGen", "HandOffHistGen.cfg", "c12-histgen",
+                               what="histories with throwing payload copies, two interleaved instances, tv = other")
+    out = {"throw": [], "multi": [], "from": []}
+    for c in sorted(cases, key=lambda c: (c["cls"], c["obj"], json.dumps(c["h"]))):
+        steps = []
+        for st in c["h"]:
+            arg = {"o": st["o"]}
+            if st["a"] in ("Push", "PushThrow", "BurstPush"):
+                arg["p"] = st["p"]
+            if st["a"] in ("Burst", "BurstPush"):
+                arg["n"] = st["n"]
+            if st["a"] == "Push":
+                arg["mv"] = len(steps) % 2 == 1
+            if st["a"] == "Get":
+                arg["ref"] = len(steps) % 3 == 1
+            if st["a"] == "AssignFrom":
+                arg["from"] = st["from"]
+            steps.append({"a": st["a"], "arg": arg})
+        if c["cls"] == "from" and not have_copy_assign:
+            continue
+        for payload in (["thr"] if c["cls"] == "throw" else handoff.PAYLOADS[c["obj"]]):
+            out[c["cls"]].append({"kind": "seq", "obj": c["obj"], "payload": payload, "objs": c["objs"], "h": steps, "class": c["cls"]})
+    return out["throw"], out["multi"], out["from"]
 
 
 def burst_conc_scenarios(rnd, quick):
@@ -151,7 +198,7 @@ def burst_conc_scenarios(rnd, quick):
     out = []
     for obj in ("val", "buf"):
         for i, n in enumerate(lens):
-            for payload in ("int", "str"):
+            for payload in handoff.PAYLOADS[obj]:
                 for rep in range(1 if quick else 2):
                     other = rnd.choice([256, 512, 255, 1, 2, 300])
                     phases = [{"a": rnd.randint(0, 3)}, {"b": n, "wait": True}, {"a": rnd.randint(1, 3)},
@@ -174,16 +221,21 @@ def conc_scenarios(rnd, quick, n_buf, n_val, maxP):
         big = (not quick) and i % 40 == 39
         K = rnd.randint(6, 9) if big and P >= 4 else rnd.randint(2, 5 if P <= 4 else 3)
         M = rnd.randint(30, 50) if big else rnd.randint(4, 12)
-        out.append({"kind": "conc", "obj": "buf", "payload": "int" if i % 2 == 0 else "str", "P": P, "K": K, "M": M,
-                    "pj": rnd.choice([0, 50, 400, 3000]), "cj": rnd.choice([0, 50, 400, 3000]), "seed": rnd.randint(1, 2 ** 30)})
+        out.append({"kind": "conc", "obj": "buf", "payload": handoff.PAYLOADS["buf"][i % 5], "P": P, "K": K, "M": M,
+                    "pj": rnd.choice([0, 50, 400, 3000]), "cj": rnd.choice([0, 50, 400, 3000]), "seed": rnd.randint(1, 2 ** 30),
+                    # start states: producer 1 has already pushed 1 element / exactly a full capacity (2^k) of them;
+                    # every third scenario releases the threads from a busy-wait barrier
+                    "pre": [0, 0, 1, 2, 4, 8, 16, 64][(i // 5) % 8], "spin": i % 3 == 0})
     for i in range(n_val):
         big = (not quick) and i % 40 == 39
-        out.append({"kind": "conc", "obj": "val", "payload": "int" if i % 2 == 0 else "str",
+        out.append({"kind": "conc", "obj": "val", "payload": handoff.PAYLOADS["val"][i % 5],
+                    # start states: a value already assigned and pending / assigned and installed (consumer caught up)
+                    "pre": (i // 5) % 3, "spin": i % 3 == 0,
                     "N": rnd.randint(30, 40) if big else rnd.randint(1, 12), "M": rnd.randint(40, 60) if big else rnd.randint(3, 14),
                     # (half of the value scenarios run both sides flat out: narrow windows between the flag test and
                     # the critical section of update() are only hit when producer and consumer are tight)
                     "pj": 0 if i % 2 else rnd.choice([0, 50, 400, 3000]), "cj": 0 if i % 2 else rnd.choice([0, 50, 400, 3000]),
-                    "ctor": "default" if i % 5 == 4 else "value", "seed": rnd.randint(1, 2 ** 30)})
+                    "ctor": "default" if i % 7 == 6 else "value", "seed": rnd.randint(1, 2 ** 30)})
     return out
 
 
@@ -234,6 +286,8 @@ def count_ops(chk, executions):
                 op = "consume(nonempty)" if c.get("runs") or c.get("batch") else "consume(empty)"
             elif op in ("burst", "bpush"):
                 op = "%s(n=%d)" % (op, c["n"])
+            elif op in ("pushx", "assignx"):
+                op = "%s(%s)" % (op, "threw" if c["threw"] else "completed")
             elif op == "update":
                 op = "update(true)" if c["ret"] else "update(false)"
             elif op == "push":
@@ -254,7 +308,8 @@ def burst_guards(chk, execs_b, owners_b, execs_bc, owners_bc):
     for lines, sc in zip(execs_b, owners_b):
         for n in bursts(lines):
             seen[(sc["obj"], sc["payload"], n)] = seen.get((sc["obj"], sc["payload"], n), 0) + 1
-    missing = [(o, pl, n) for o in ("val", "buf") for pl in ("int", "str") for n in BURST_LENS if not seen.get((o, pl, n))]
+    missing = [(o, pl, n) for o in ("val", "buf") for pl in handoff.PAYLOADS[o]
+               for n in (BURST_LENS if pl in ("int", "str") else BOUNDARY_LENS) if not seen.get((o, pl, n))]
     if missing:
         raise InfraError("vacuity guard: burst classes never executed (single-threaded): %s" % missing[:10])
     conc = {}
@@ -262,20 +317,20 @@ def burst_guards(chk, execs_b, owners_b, execs_bc, owners_bc):
         for n in bursts(lines):
             conc.setdefault((sc["obj"], sc["payload"]), []).append(n)
     for o in ("val", "buf"):
-        for pl in ("int", "str"):
+        for pl in handoff.PAYLOADS[o]:
             ns = conc.get((o, pl), [])
             if not any(256 <= n < 65536 for n in ns) or not any(n >= 65536 for n in ns):
                 raise InfraError("vacuity guard: concurrent executions of %s/%s lack a burst >= 256 or >= 65536 between two consumer polls: %s" % (o, pl, ns))
     chk.cov["burst_classes_sequential"] = {"%s/%s" % (o, pl): sorted(n for (oo, pp, n) in seen if (oo, pp) == (o, pl))
-                                           for o in ("val", "buf") for pl in ("int", "str")}
+                                           for o in ("val", "buf") for pl in handoff.PAYLOADS[o]}
     chk.cov["burst_lengths_concurrent"] = {"%s/%s" % k: sorted(set(v)) for k, v in conc.items()}
 
 
-def run_and_validate(chk, exe, scenarios, tag, chunks):
+def run_and_validate(chk, exe, scenarios, tag, chunks, scenario_timeout=60, max_abnormal=6):
     """Execute scenarios on the real code (with stamps), validate every execution with TLC."""
     for i, sc in enumerate(scenarios):
         sc["id"] = i
-    res, wall = handoff.run_scenarios(exe, scenarios, tag)
+    res, wall = handoff.run_scenarios(exe, scenarios, tag, scenario_timeout=scenario_timeout, max_abnormal=max_abnormal)
     execs, owners = [], []
     for sc in scenarios:
         r = res.get(sc["id"])
@@ -284,6 +339,12 @@ def run_and_validate(chk, exe, scenarios, tag, chunks):
         if "abnormal" in r:
             execs.append([{"k": r["abnormal"], "during": "scenario"}])
             sc["_detail"] = r["detail"][-3000:]
+        elif sc.get("objs", 1) > 1:
+            # a history over several instances: each instance's calls are one execution of the contract
+            for o, calls in enumerate(handoff.split_objects(r["calls"])):
+                execs.append(handoff.to_lines(calls, sc["obj"]))
+                owners.append(dict(sc, instance=o))
+            continue
         else:
             execs.append(handoff.to_lines(r["calls"], sc["obj"]))
             sc["_overlaps"] = handoff.overlaps(r["calls"])
@@ -464,7 +525,13 @@ def run(chk, replay=None):
         "payload encoding (pair <-> IntPair / std::string) in the driver is injective",
         "a consumer call made while every producer is idle and with nothing inside its window is judged by the End clause of the statement "
         "(the execution up to its response is a complete execution whose producers have stopped): consume() takes all, update() installs the last value",
-        "burst lengths explored: 1, 2, 127..129-1, 255..257, 511..513, 1024, 65535..65537 (and sums of two of them); other counter widths (2^32) are not reached",
+        "burst lengths explored: 0, 1, 2, 127/128, 255..257, 511..513, 1023..1025, 4095..4097, 65535..65537 (thorough: also 129, 383/384, 768, 32767/32768, "
+        "131071..131073) and sums of two of them; 2^31 / 2^32 calls between two consumer calls are not reached (TLC integers are 32 bit, the macro action "
+        "materialises the burst)",
+        "payload types: word-sized int (both signs), 8-byte pair, 24-byte POD, 64-byte alignas(64) POD (value only; std::vector cannot hold over-aligned "
+        "elements in C++11), std::string (small-buffer, heap, NUL and >= 0x80 bytes, 300 characters), move-only unique_ptr (buffer only), a type whose copy throws",
+        "a call that ended with an exception thrown by the payload's copy may count as made or as not made (the statement does not say)",
+        "several consumers, self-referential pushes and get()/ref() from the producer side are outside the documented usage and not exercised",
     ]
     if replay:
         return do_replay(chk, replay)
@@ -474,6 +541,16 @@ def run(chk, replay=None):
         f2 = ex.submit(build.build, "drv_handoff", "Debug", "thread")
         model_race = model_checking(chk, quick)
         exe, exe_tsan = f1.result(), f2.result()
+    # probe build: the same driver with TransactionalValue<T>::operator=(const TransactionalValue<T>&) instantiated
+    try:
+        exe_probe = build.build("drv_handoff", "Debug", "", extra_defs=["HANDOFF_PROBE_TV_COPY_ASSIGN=ON"])
+    except build.BuildFailed as e:
+        exe_probe = None
+        m = re.search(r"TransactionalValue\.h:(\d+):\d+: error: ([^\n]*)", str(e))
+        chk.cov["tv_copy_assignment_instantiable"] = False
+        chk.note("TransactionalValue<T>::operator=(const TransactionalValue<T>&) cannot be instantiated on this tree (%s): its histories "
+                 "(tv = other) are not evaluated - the probe build with -DHANDOFF_PROBE_TV_COPY_ASSIGN fails, the build without it succeeds"
+                 % (("TransactionalValue.h:%s: %s" % (m.group(1), m.group(2))) if m else "compile error"))
 
     # spec -> code: TLC-generated call sequences on the real objects, results validated by the contract
     seq, info = seq_scenarios(chk, quick)
@@ -486,6 +563,16 @@ def run(chk, replay=None):
     execs_b, owners_b, rej_b = run_and_validate(chk, exe, bseq, "c12-burst-seq", chunks=8)
     count_ops(chk, execs_b)
 
+    # spec -> code, state left behind: throwing payload copies, two interleaved instances, tv = other
+    h_throw, h_multi, h_from = hist_scenarios(chk, exe_probe is not None)
+    execs_ht, owners_ht, rej_ht = run_and_validate(chk, exe, h_throw, "c12-hist-throw", chunks=2, scenario_timeout=60, max_abnormal=1)
+    execs_hm, owners_hm, rej_hm = run_and_validate(chk, exe, h_multi, "c12-hist-multi", chunks=4)
+    execs_hf, owners_hf, rej_hf = (run_and_validate(chk, exe_probe, h_from, "c12-hist-from", chunks=2) if h_from else ([], [], []))
+    if exe_probe is not None:
+        chk.cov["tv_copy_assignment_instantiable"] = True
+    for e in (execs_ht, execs_hm, execs_hf):
+        count_ops(chk, e)
+
     # code -> spec: concurrent executions
     conc = conc_scenarios(rnd, quick, 100 if quick else 1500, 130 if quick else 1400, 4 if quick else 8)
     execs_c, owners_c, rej = run_and_validate(chk, exe, conc, "c12-conc", chunks=8)
@@ -497,7 +584,7 @@ def run(chk, replay=None):
     bconc = burst_conc_scenarios(rnd, quick)
     execs_bc, owners_bc, rej_bc = run_and_validate(chk, exe, bconc, "c12-burst-conc", chunks=8)
     count_ops(chk, execs_bc)
-    clean = not rej and not rej_s and not rej_b and not rej_bc       # code that violates the contract may legitimately skew what was exercised: guards only on clean runs
+    clean = not (rej or rej_s or rej_b or rej_bc or rej_ht or rej_hm or rej_hf)       # code that violates the contract may legitimately skew what was exercised: guards only on clean runs
     if clean and chk.cov["concurrent_executions_with_overlapping_calls"] < len(owners_c) // 4:
         raise InfraError("vacuity guard: only %d of %d concurrent executions contain overlapping calls" % (chk.cov["concurrent_executions_with_overlapping_calls"], len(owners_c)))
     if clean:
@@ -505,9 +592,28 @@ def run(chk, replay=None):
                              "assign", "update(true)", "update(false)", "get"])
     if clean:
         burst_guards(chk, execs_b, owners_b, execs_bc, owners_bc)
-    allx = execs_s + execs_c + execs_b + execs_bc
+        chk.require_actions(["pushx(threw)", "assignx(threw)"])
+        # every payload type in every family of executions; start states; several instances
+        fams = {"seq": owners_s, "burst-seq": owners_b, "conc": owners_c, "burst-conc": owners_bc, "multi": owners_hm}
+        if exe_probe is not None:
+            fams["from"] = owners_hf
+        for fam, ow in fams.items():
+            for obj in ("buf", "val"):
+                if fam == "from" and obj == "buf":
+                    continue
+                missing = [pl for pl in handoff.PAYLOADS[obj] if not any(sc["obj"] == obj and sc["payload"] == pl for sc in ow)]
+                if missing:
+                    raise InfraError("vacuity guard: payload types %s of %s never executed in family %s" % (missing, obj, fam))
+        pres = {(sc["obj"], sc.get("pre", 0)) for sc in owners_c}
+        need = {("buf", 1), ("buf", 2), ("buf", 4), ("buf", 8), ("buf", 16), ("val", 1), ("val", 2)}
+        if not need <= pres or not any(sc.get("spin") for sc in owners_c):
+            raise InfraError("vacuity guard: concurrent start states missing: %s" % sorted(need - pres))
+        chk.cov["payload_types"] = handoff.PAYLOADS
+        chk.cov["concurrent_start_states"] = sorted("%s:pre=%d" % p for p in pres)
+        chk.cov["executions_by_instance_of_multi_object_histories"] = len(owners_hm)
+    allx = execs_s + execs_c + execs_b + execs_bc + execs_ht + execs_hm + execs_hf
     distinct = {}
-    for lines, sc in zip(allx, owners_s + owners_c + owners_b + owners_bc):
+    for lines, sc in zip(allx, owners_s + owners_c + owners_b + owners_bc + owners_ht + owners_hm + owners_hf):
         nontrivial = any(l.get("k") == "inv" and l["c"]["op"] in ("push", "assign") for l in lines)
         if nontrivial:
             distinct[handoff.digest(lines)] = 1
@@ -525,8 +631,12 @@ def run(chk, replay=None):
     chk.add_sample({"kind": "tlc-generated-call-sequence", "scenario": {a: b for a, b in owners_s[len(owners_s) // 2].items() if not a.startswith("_")}})
 
     # data-race clause: the same scenarios under ThreadSanitizer (no stamps)
-    n_t = (30, 30) if quick else (200, 200)
-    sub = [sc for sc in conc if sc["obj"] == "buf"][:n_t[0]] + [sc for sc in conc if sc["obj"] == "val"][:n_t[1]]
+    n_t = (40, 40) if quick else (200, 200)
+    def spread(xs, n):          # n scenarios spread over the whole list (all payload types and all start states)
+        step = max(1, len(xs) // n)
+        step += 1 if step % 5 == 0 else 0          # payload types cycle with period 5
+        return xs[::step][:n]
+    sub = spread([sc for sc in conc if sc["obj"] == "buf"], n_t[0]) + spread([sc for sc in conc if sc["obj"] == "val"], n_t[1])
     sub = [{a: b for a, b in sc.items() if not a.startswith("_")} for sc in sub]
     n_abn = tsan_runs(chk, exe_tsan, sub, "c12-tsan")
     chk.cov["model_predicts_race_in_TransactionalValue_as_written"] = False
